@@ -80,7 +80,7 @@ structure Inv (l : Ledger) : Prop where
   scope : ∀ x ∈ l.deb, x.delegator < l.n ∧ x.escrow < l.n
   sorted : Sorted l.deb
 
-theorem keyLt_trans' (a b c : DebEntry) (h1 : a.keyLt b = true) (h2 : b.keyLt c = true) : a.keyLt c = true := by
+theorem keyLt_transitive (a b c : DebEntry) (h1 : a.keyLt b = true) (h2 : b.keyLt c = true) : a.keyLt c = true := by
   rw [keyLt_iff] at *; omega
 
 theorem sortedB_iff (q : List DebEntry) : sortedB q = true ↔ Sorted q := by
@@ -98,7 +98,7 @@ theorem sortedB_iff (q : List DebEntry) : sortedB q = true ↔ Sorted q := by
         intro x hx
         rcases List.mem_cons.1 hx with rfl | hx
         · exact h1
-        · exact keyLt_trans' a b x h1 ((List.pairwise_cons.1 h2).1 x hx)
+        · exact keyLt_transitive a b x h1 ((List.pairwise_cons.1 h2).1 x hx)
       · intro h
         have := List.pairwise_cons.1 h
         exact ⟨this.1 b (List.mem_cons_self ..), this.2⟩
@@ -151,7 +151,7 @@ def SharesInv (n : Nat) (acct : Nat → Account) (del : Nat → Nat → Nat) (de
 
 theorem Inv.shares {l : Ledger} (h : Inv l) : SharesInv l.n l.acct l.del l.deb := ⟨h.active, h.debond, h.scope, h.sorted⟩
 
-theorem Inv.mk' {l : Ledger}
+theorem Inv.ofShares {l : Ledger}
     (hs : l.totalSupply = accountsTotal l + l.common + l.govDeposits
             + (if l.lbfSpent then 0 else l.lastBlockFees) + l.feeAcc)
     (hsh : SharesInv l.n l.acct l.del l.deb) : Inv l := ⟨hs, hsh.1, hsh.2.1, hsh.2.2.1, hsh.2.2.2⟩
@@ -207,7 +207,7 @@ theorem payFee_good (l l' : Ledger) (signer nonce fee : Nat) (hs : signer < l.n)
   · simp [h1, h2, hbal] at hok
   simp only [h1, h2, hbal, if_false, Bool.false_eq_true] at hok
   injection hok with hok; subst hok
-  refine ⟨Inv.mk' ?_ ?_, rfl, rfl, rfl, Nat.le_refl _, ⟨rfl, rfl, rfl, rfl, rfl⟩⟩
+  refine ⟨Inv.ofShares ?_ ?_, rfl, rfl, rfl, Nat.le_refl _, ⟨rfl, rfl, rfl, rfl, rfl⟩⟩
   · have ht := accountsTotal_setAcct l signer
       { l.acct signer with general := (l.acct signer).general - fee, nonce := (l.acct signer).nonce + 1 } hs
     have hsup := h.supply
@@ -237,7 +237,7 @@ theorem burnImpl_good (l l' : Ledger) (src amount : Nat) (hs : src < l.n) (h : I
     omega
   have ht := accountsTotal_setAcct l src { l.acct src with general := (l.acct src).general - amount } hs
   simp only [Account.bal] at ht
-  refine ⟨Inv.mk' ?_ ?_, rfl, rfl, ?_, ?_, ⟨rfl, rfl, rfl, rfl, rfl⟩⟩
+  refine ⟨Inv.ofShares ?_ ?_, rfl, rfl, ?_, ?_, ⟨rfl, rfl, rfl, rfl, rfl⟩⟩
   · show (if l.totalSupply < amount then l.totalSupply else l.totalSupply - amount)
         = accountsTotal (l.setAcct src _) + l.common + l.govDeposits
           + (if l.lbfSpent then 0 else l.lastBlockFees) + l.feeAcc
@@ -280,7 +280,7 @@ theorem transfer_good (l l' : Ledger) (src dst amount : Nat) (hs : src < l.n) (h
     simp only [h2, h3, h4, if_false] at hok
     injection hok with hok; subst hok
     have hds : dst ≠ src := fun e => hne e.symm
-    refine ⟨Inv.mk' ?_ ?_, rfl, rfl, rfl, Nat.le_refl _, ⟨rfl, rfl, rfl, rfl, rfl⟩⟩
+    refine ⟨Inv.ofShares ?_ ?_, rfl, rfl, rfl, Nat.le_refl _, ⟨rfl, rfl, rfl, rfl, rfl⟩⟩
     · have t1 := accountsTotal_setAcct l dst { l.acct dst with general := (l.acct dst).general + amount } hd
       have t2 := accountsTotal_setAcct (l.setAcct dst { l.acct dst with general := (l.acct dst).general + amount })
         src { l.acct src with general := (l.acct src).general - amount } hs
@@ -337,7 +337,7 @@ theorem addEscrow_good (l l' : Ledger) (src escrow amount : Nat) (hs : src < l.n
     by_cases hse : src = escrow
     · subst hse
       simp only [if_true]
-      refine ⟨Inv.mk' ?_ ?_, rfl, rfl, rfl, Nat.le_refl _, ⟨rfl, rfl, rfl, rfl, rfl⟩⟩
+      refine ⟨Inv.ofShares ?_ ?_, rfl, rfl, rfl, Nat.le_refl _, ⟨rfl, rfl, rfl, rfl, rfl⟩⟩
       · have t1 := accountsTotal_setAcct l src { l.acct src with general := r.stakeSrc, active := r.pool } hs
         show l.totalSupply = accountsTotal (l.setAcct src _) + l.common + l.govDeposits
           + (if l.lbfSpent then 0 else l.lastBlockFees) + l.feeAcc
@@ -354,7 +354,7 @@ theorem addEscrow_good (l l' : Ledger) (src escrow amount : Nat) (hs : src < l.n
           rw [upd_same]; simp only; omega
     · simp only [hse, if_false]
       have hes : escrow ≠ src := fun e => hse e.symm
-      refine ⟨Inv.mk' ?_ ?_, rfl, rfl, rfl, Nat.le_refl _, ⟨rfl, rfl, rfl, rfl, rfl⟩⟩
+      refine ⟨Inv.ofShares ?_ ?_, rfl, rfl, rfl, Nat.le_refl _, ⟨rfl, rfl, rfl, rfl, rfl⟩⟩
       · have t1 := accountsTotal_setAcct l src { l.acct src with general := r.stakeSrc } hs
         have t2 := accountsTotal_setAcct (l.setAcct src { l.acct src with general := r.stakeSrc })
           escrow { l.acct escrow with active := r.pool } he
@@ -448,7 +448,7 @@ theorem reclaimEscrow_good (l l' : Ledger) (dst escrow shares : Nat) (hd : dst <
     simp only [hr] at hok
     injection hok with hok; subst hok
     obtain ⟨_, hb1, hb2, hts, hdl, hdts, _, _⟩ := reclaim_moves_all _ _ _ _ _ hr
-    refine ⟨Inv.mk' ?_ ?_, rfl, rfl, rfl, Nat.le_refl _, ⟨rfl, rfl, rfl, rfl, rfl⟩⟩
+    refine ⟨Inv.ofShares ?_ ?_, rfl, rfl, rfl, Nat.le_refl _, ⟨rfl, rfl, rfl, rfl, rfl⟩⟩
     · have t1 := accountsTotal_setAcct l escrow { l.acct escrow with active := r.active, debonding := r.debonding } he
       have hsup := h.supply
       show l.totalSupply = accountsTotal (l.setAcct escrow _) + l.common + l.govDeposits
@@ -494,7 +494,7 @@ theorem allow_good (l l' : Ledger) (owner b : Nat) (neg : Bool) (change : Nat) (
   split at hok; · cases hok
   split at hok; · cases hok
   injection hok with hok; subst hok
-  refine ⟨Inv.mk' ?_ ?_, rfl, rfl, rfl, Nat.le_refl _, ⟨rfl, rfl, rfl, rfl, rfl⟩⟩
+  refine ⟨Inv.ofShares ?_ ?_, rfl, rfl, rfl, Nat.le_refl _, ⟨rfl, rfl, rfl, rfl, rfl⟩⟩
   · generalize hal : setAllow (l.acct owner).allowances b
         (newAllowance ((lookupAllow (l.acct owner).allowances b).getD 0) neg change) = al
     have t1 := accountsTotal_setAcct l owner { l.acct owner with allowances := al } ho
@@ -529,7 +529,7 @@ theorem withdraw_good (l l' : Ledger) (dst src amount : Nat) (hd : dst < l.n) (h
     simp only [h2, h3, h4, if_false] at hok
     injection hok with hok; subst hok
     have hsd : src ≠ dst := fun e => hne e.symm
-    refine ⟨Inv.mk' ?_ ?_, rfl, rfl, rfl, Nat.le_refl _, ⟨rfl, rfl, rfl, rfl, rfl⟩⟩
+    refine ⟨Inv.ofShares ?_ ?_, rfl, rfl, rfl, Nat.le_refl _, ⟨rfl, rfl, rfl, rfl, rfl⟩⟩
     · have t1 := accountsTotal_setAcct l dst { l.acct dst with general := (l.acct dst).general + amount } hd
       have t2 := accountsTotal_setAcct (l.setAcct dst { l.acct dst with general := (l.acct dst).general + amount })
         src { l.acct src with general := (l.acct src).general - amount,
@@ -712,7 +712,7 @@ theorem disburseFeesP_kept (l l' : Ledger) (hp : ∀ p, l.proposer = some p → 
   by_cases hf : l.feeAcc = 0
   · simp only [hf, if_true] at hok
     injection hok with hok; subst hok
-    refine ⟨⟨Inv.mk' ?_ h.shares, rfl, rfl, rfl, Nat.le_refl _⟩, rfl, rfl, rfl, rfl⟩
+    refine ⟨⟨Inv.ofShares ?_ h.shares, rfl, rfl, rfl, Nat.le_refl _⟩, rfl, rfl, rfl, rfl⟩
     show l.totalSupply = accountsTotal l + l.common + l.govDeposits + (if false = true then 0 else 0) + 0
     simp only [Bool.false_eq_true, if_false]; omega
   · simp only [hf, if_false] at hok
@@ -733,7 +733,7 @@ theorem disburseFeesP_kept (l l' : Ledger) (hp : ∀ p, l.proposer = some p → 
       have e0 : accountsTotal { l with lastBlockFees := persist, lbfSpent := false, feeAcc := 0 } = accountsTotal l := rfl
       rw [e0] at ct
       have hsh := c.sharesInv (l := { l with lastBlockFees := persist, lbfSpent := false, feeAcc := 0 }) h.shares
-      refine ⟨⟨Inv.mk' ?_ ?_, f1, f2, ?_, ?_⟩, f8, f9, ?_, ?_⟩
+      refine ⟨⟨Inv.ofShares ?_ ?_, f1, f2, ?_, ?_⟩, f8, f9, ?_, ?_⟩
       · rw [f10, f5, f6, f7, f8, f9, ct]
         show l.totalSupply = _ + l.common + l.govDeposits + (if false = true then 0 else persist) + 0
         simp only [Bool.false_eq_true, if_false, hpr, Option.isSome_some, and_true]
@@ -744,7 +744,7 @@ theorem disburseFeesP_kept (l l' : Ledger) (hp : ∀ p, l.proposer = some p → 
       · have e := c.eq; rw [e]
       · have e := c.eq; rw [e]
     · injection hok with hok; subst hok
-      refine ⟨⟨Inv.mk' ?_ h.shares, rfl, rfl, rfl, Nat.le_refl _⟩, rfl, rfl, rfl, rfl⟩
+      refine ⟨⟨Inv.ofShares ?_ h.shares, rfl, rfl, rfl, Nat.le_refl _⟩, rfl, rfl, rfl, rfl⟩
       show l.totalSupply = accountsTotal l + (l.common + (l.feeAcc - persist)) + l.govDeposits
         + (if false = true then 0 else persist) + 0
       simp only [Bool.false_eq_true, if_false]; omega
@@ -778,7 +778,7 @@ theorem vqPay_kept (l l' : Ledger) (proposer : Option Nat) (voters : List Nat) (
       obtain ⟨f1, f2, f3, f4, f5, f6, f7, f8, f9, f10, f11⟩ := c.fields
       have hsh := c.sharesInv h.shares
       have ct := c.total
-      refine ⟨⟨Inv.mk' ?_ ?_, f1, f2, ?_, ?_⟩, Or.inl rfl, f9, ?_, ?_⟩
+      refine ⟨⟨Inv.ofShares ?_ ?_, f1, f2, ?_, ?_⟩, Or.inl rfl, f9, ?_, ?_⟩
       · show l2.totalSupply = accountsTotal l2 + (l2.common + (l.lastBlockFees - pNP - pV)) + l2.govDeposits
           + (if true = true then 0 else l2.lastBlockFees) + l2.feeAcc
         rw [f10, f5, f6, f9, ct]
@@ -843,7 +843,7 @@ theorem rewardAccount_good (l l' : Ledger) (a q : Nat) (ha : a < l.n) (h : Inv l
     by_cases hcom : com = 0
     · simp only [hcom, if_true] at hok
       injection hok with hok; subst hok
-      refine ⟨Inv.mk' ?_ ?_, rfl, rfl, rfl, Nat.le_refl _, ⟨rfl, rfl, rfl, rfl, rfl⟩⟩
+      refine ⟨Inv.ofShares ?_ ?_, rfl, rfl, rfl, Nat.le_refl _, ⟨rfl, rfl, rfl, rfl, rfl⟩⟩
       · have t1 := accountsTotal_setAcct l a { l.acct a with active :=
             { (l.acct a).active with balance := (l.acct a).active.balance + rest } } ha
         show l.totalSupply = accountsTotal (l.setAcct a _) + (l.common - rest) + l.govDeposits
@@ -861,7 +861,7 @@ theorem rewardAccount_good (l l' : Ledger) (a q : Nat) (ha : a < l.n) (h : Inv l
         injection hok with hok; subst hok
         obtain ⟨hle, hb, hsrc, ht, hsd⟩ := deposit_moves _ _ _ _ _ hd
         simp only at hb ht
-        refine ⟨Inv.mk' ?_ ?_, rfl, rfl, rfl, Nat.le_refl _, ⟨rfl, rfl, rfl, rfl, rfl⟩⟩
+        refine ⟨Inv.ofShares ?_ ?_, rfl, rfl, rfl, Nat.le_refl _, ⟨rfl, rfl, rfl, rfl, rfl⟩⟩
         · have t1 := accountsTotal_setAcct l a { l.acct a with active := r.pool } ha
           show l.totalSupply = accountsTotal (l.setAcct a _) + r.stakeSrc + l.govDeposits
             + (if l.lbfSpent then 0 else l.lastBlockFees) + l.feeAcc
@@ -915,7 +915,7 @@ theorem inv_of_same_money {l l' : Ledger} (h : Inv l) (hn : l'.n = l.n) (ha : l'
     (hd : l'.del = l.del) (hq : l'.deb = l.deb) (hc : l'.common = l.common) (hg : l'.govDeposits = l.govDeposits)
     (hl : l'.lastBlockFees = l.lastBlockFees) (hs : l'.lbfSpent = l.lbfSpent) (hf : l'.feeAcc = l.feeAcc)
     (ht : l'.totalSupply = l.totalSupply) : Inv l' := by
-  apply Inv.mk'
+  apply Inv.ofShares
   · have := h.supply
     unfold accountsTotal at *
     rw [hn, ha, hc, hg, hl, hs, hf, ht]; exact this
@@ -946,7 +946,7 @@ theorem slashEscrowL_good (l l' : Ledger) (a amount : Nat) (ha : a < l.n) (h : I
   · injection hok with hok; subst hok; exact Good.refl h
   injection hok with hok; subst hok
   obtain ⟨c1, c2, c3, c4, _, _, _, _⟩ := slash_conserves (l.acct a).active (l.acct a).debonding l.common amount
-  refine ⟨Inv.mk' ?_ ?_, rfl, rfl, rfl, Nat.le_refl _, ⟨rfl, rfl, rfl, rfl, rfl⟩⟩
+  refine ⟨Inv.ofShares ?_ ?_, rfl, rfl, rfl, Nat.le_refl _, ⟨rfl, rfl, rfl, rfl, rfl⟩⟩
   · have t1 := accountsTotal_setAcct l a { l.acct a with
         active := (slashEscrow (l.acct a).active (l.acct a).debonding l.common amount).active,
         debonding := (slashEscrow (l.acct a).active (l.acct a).debonding l.common amount).debonding } ha
@@ -1103,7 +1103,7 @@ theorem debondEntry_good (l l' : Ledger) (e : DebEntry) (he : e ∈ l.deb) (h : 
     by_cases hde : e.delegator = e.escrow
     · simp only [hde, if_true] at hok
       injection hok with hok; subst hok
-      refine ⟨⟨Inv.mk' ?_ ?_, rfl, rfl, rfl, Nat.le_refl _, ⟨rfl, rfl, rfl, rfl, rfl⟩⟩, rfl⟩
+      refine ⟨⟨Inv.ofShares ?_ ?_, rfl, rfl, rfl, Nat.le_refl _, ⟨rfl, rfl, rfl, rfl, rfl⟩⟩, rfl⟩
       · have t1 := accountsTotal_setAcct l e.escrow { l.acct e.escrow with
             general := (l.acct e.escrow).general + w.stakeDst, debonding := w.pool } hen
         show l.totalSupply = accountsTotal (Ledger.setAcct _ e.escrow _) + l.common + l.govDeposits
@@ -1142,7 +1142,7 @@ theorem debondEntry_good (l l' : Ledger) (e : DebEntry) (he : e ∈ l.deb) (h : 
     · simp only [hde, if_false] at hok
       injection hok with hok; subst hok
       have hed : e.escrow ≠ e.delegator := fun x => hde x.symm
-      refine ⟨⟨Inv.mk' ?_ ?_, rfl, rfl, rfl, Nat.le_refl _, ⟨rfl, rfl, rfl, rfl, rfl⟩⟩, rfl⟩
+      refine ⟨⟨Inv.ofShares ?_ ?_, rfl, rfl, rfl, Nat.le_refl _, ⟨rfl, rfl, rfl, rfl, rfl⟩⟩, rfl⟩
       · have t1 := accountsTotal_setAcct l e.delegator { l.acct e.delegator with
             general := (l.acct e.delegator).general + w.stakeDst } hdn
         have t2 := accountsTotal_setAcct (l.setAcct e.delegator { l.acct e.delegator with
@@ -1341,7 +1341,7 @@ theorem govDeposit_good (l l' : Ledger) (src amount : Nat) (hs : src < l.n) (h :
   · simp [h2] at hok
   simp only [h2, if_false] at hok
   injection hok with hok; subst hok
-  refine ⟨Inv.mk' ?_ (sharesInv_upd_acct h.shares src _ rfl rfl), rfl, rfl, rfl, Nat.le_refl _, ⟨rfl, rfl, rfl, rfl, rfl⟩⟩
+  refine ⟨Inv.ofShares ?_ (sharesInv_upd_acct h.shares src _ rfl rfl), rfl, rfl, rfl, Nat.le_refl _, ⟨rfl, rfl, rfl, rfl, rfl⟩⟩
   have t1 := accountsTotal_setAcct l src { l.acct src with general := (l.acct src).general - amount } hs
   have hsup := h.supply
   show l.totalSupply = accountsTotal (l.setAcct src _) + l.common + (l.govDeposits + amount)
@@ -1359,7 +1359,7 @@ theorem govRefund_good (l l' : Ledger) (dst amount : Nat) (hd : dst < l.n) (h : 
   simp only [h2, if_false] at hok
   injection hok with hok; subst hok
   have c := creditGeneral_change l dst amount hd
-  refine ⟨Inv.mk' ?_ (c.sharesInv h.shares), rfl, rfl, rfl, Nat.le_refl _, ⟨rfl, rfl, rfl, rfl, rfl⟩⟩
+  refine ⟨Inv.ofShares ?_ (c.sharesInv h.shares), rfl, rfl, rfl, Nat.le_refl _, ⟨rfl, rfl, rfl, rfl, rfl⟩⟩
   have ct := c.total
   have hsup := h.supply
   show l.totalSupply = accountsTotal (l.creditGeneral dst amount) + l.common + (l.govDeposits - amount)
@@ -1374,7 +1374,7 @@ theorem govDiscard_good (l l' : Ledger) (amount : Nat) (h : Inv l)
   · simp [h2] at hok
   simp only [h2, if_false] at hok
   injection hok with hok; subst hok
-  refine ⟨Inv.mk' ?_ h.shares, rfl, rfl, rfl, Nat.le_refl _, ⟨rfl, rfl, rfl, rfl, rfl⟩⟩
+  refine ⟨Inv.ofShares ?_ h.shares, rfl, rfl, rfl, Nat.le_refl _, ⟨rfl, rfl, rfl, rfl, rfl⟩⟩
   have hsup := h.supply
   show l.totalSupply = accountsTotal l + (l.common + amount) + (l.govDeposits - amount)
     + (if l.lbfSpent then 0 else l.lastBlockFees) + l.feeAcc
@@ -1402,7 +1402,7 @@ theorem transferFromCommon_good (l l' : Ledger) (dst amount : Nat) (escrow : Boo
   split at hok
   · -- plain transfer to the general balance
     injection hok with hok; subst hok
-    refine ⟨Inv.mk' ?_ (sharesInv_upd_acct h.shares dst _ rfl rfl), rfl, rfl, rfl, Nat.le_refl _, ⟨rfl, rfl, rfl, rfl, rfl⟩⟩
+    refine ⟨Inv.ofShares ?_ (sharesInv_upd_acct h.shares dst _ rfl rfl), rfl, rfl, rfl, Nat.le_refl _, ⟨rfl, rfl, rfl, rfl, rfl⟩⟩
     have t1 := accountsTotal_setAcct l dst { l.acct dst with general := gen1 } hd
     show l.totalSupply = accountsTotal (l.setAcct dst _) + com1 + l.govDeposits
       + (if l.lbfSpent then 0 else l.lastBlockFees) + l.feeAcc
@@ -1445,7 +1445,7 @@ theorem transferFromCommon_good (l l' : Ledger) (dst amount : Nat) (escrow : Boo
     obtain ⟨q1, q2, q3⟩ := step1 gen pool com hs1
     split at hok
     · injection hok with hok; subst hok
-      refine ⟨Inv.mk' ?_ (sharesInv_upd_acct h.shares dst _ q2 rfl), rfl, rfl, rfl, Nat.le_refl _, ⟨rfl, rfl, rfl, rfl, rfl⟩⟩
+      refine ⟨Inv.ofShares ?_ (sharesInv_upd_acct h.shares dst _ q2 rfl), rfl, rfl, rfl, Nat.le_refl _, ⟨rfl, rfl, rfl, rfl, rfl⟩⟩
       have t1 := accountsTotal_setAcct l dst { l.acct dst with general := gen, active := pool } hd
       show l.totalSupply = accountsTotal (l.setAcct dst _) + com1 + l.govDeposits
         + (if l.lbfSpent then 0 else l.lastBlockFees) + l.feeAcc
@@ -1458,7 +1458,7 @@ theorem transferFromCommon_good (l l' : Ledger) (dst amount : Nat) (escrow : Boo
         simp only [hdp] at hok
         injection hok with hok; subst hok
         obtain ⟨hle, hb, hsrc, ht, hsd⟩ := deposit_moves _ _ _ _ _ hdp
-        refine ⟨Inv.mk' ?_ ?_, rfl, rfl, rfl, Nat.le_refl _, ⟨rfl, rfl, rfl, rfl, rfl⟩⟩
+        refine ⟨Inv.ofShares ?_ ?_, rfl, rfl, rfl, Nat.le_refl _, ⟨rfl, rfl, rfl, rfl, rfl⟩⟩
         · have t1 := accountsTotal_setAcct l dst { l.acct dst with general := r.stakeSrc, active := r.pool } hd
           show l.totalSupply = accountsTotal (l.setAcct dst _) + com1 + l.govDeposits
             + (if l.lbfSpent then 0 else l.lastBlockFees) + l.feeAcc
